@@ -110,7 +110,7 @@ def firstMismatch : List Item → List Item → String
       else
         match o, i with
         | .lig c f og lb rb, .lig c' f' og' lb' rb' =>
-          if c = c' ∧ f = f' ∧ og = og' ∧ lb = lb' ∧ rb ≠ rb' then "lig-rb-flag"
+          if c = c' ∧ f = f' ∧ og = og' ∧ lb = lb' ∧ rb ≠ rb' then (if rb then "lig-rb-flag-gained" else "lig-rb-flag-lost")
           else if c = c' ∧ f = f' ∧ og = og' ∧ lb ≠ lb' then "lig-lb-flag"
           else if og.isEmpty ∧ (rb ∨ lb) then "extra-boundary-lig" else "lig/lig"
         | .lig _ _ og lb rb, _ =>
